@@ -25,7 +25,7 @@ func init() {
 		Title: "Provider collateral is fully backed and returned exactly once",
 		Cases: func(t string) int { return tierN(t, 150, 2000) },
 		Run:   runC15,
-		Rule: "case = one history of 14-45 steps over 4 accounts (one of them drained by a bank transfer to a boundary balance around the price): MsgInitProvider / MsgShutdownProvider (by providers, by non-providers, repeated), re-init after shutdown, bank transfers between the accounts, unrelated provider-record edits, block boundaries, and (about 60% of the cases) 1-3 real governance changes of CollateralPrice placed between lock and refund; initial price from a boundary pool. " +
+		Rule: "case = one history of 14-45 steps over 4 accounts (one of them drained by a bank transfer to a boundary balance around the price): MsgInitProvider / MsgShutdownProvider (by providers, by non-providers, repeated), re-init after shutdown, bank transfers between the accounts, storage purchases with and without a referrer (tokens moving through the module's other accounts), unrelated provider-record edits, block boundaries, and (about 60% of the cases) 1-3 real governance changes of CollateralPrice placed between lock and refund; initial price from a boundary pool. " +
 			"after EVERY delivered transaction (including the governance ones, checked when ParamChange returns): balance(storage_collateral_name) == sum of Collateral.Amount over GetAllCollateral == sum of the model's locks, record set == model, provider set (AllProviders query) == model; init: registrant -current CollateralPrice (Params query), escrow +same, no other balance moves, record == price; shutdown: registrant +recorded amount, escrow -same, no other balance moves, both records gone; shutdown by a non-provider: nothing moves. " +
 			"non-trivial signature = (operation, outcome, relation of the current price to the price recorded at lock time: same/higher/lower, number of providers after the step clipped at 3)",
 		Assumptions: []string{
@@ -350,6 +350,19 @@ func runC15(rc *RunCtx) {
 			r := c.DeliverAs(i, banktypes.NewMsgSend(c.Accs[i].Addr, c.Accs[j].Addr, sdk.NewCoins(sdk.NewInt64Coin("ujkl", amt))))
 			after := fmt.Sprintf("step %d h=%d bank send acc%d -> acc%d %d -> code %d", s, c.Height, i, j, amt, r.Code)
 			rc.Logf("%s", after)
+			if !check(after) {
+				return
+			}
+		case op < 86: // other storage traffic that moves tokens through the module's other accounts: a purchase with or without a referrer
+			j := players[rc.Intn(len(players))]
+			ref := []string{"", c.Accs[j].Bech, c.Accs[0].Bech, strings.ToUpper(c.Accs[j].Bech)}[rc.Intn(4)]
+			r := c.DeliverAs(i, &storagetypes.MsgBuyStorage{Creator: a, ForAddress: a, DurationDays: int64(30 + rc.Intn(400)), Bytes: int64(1+rc.Intn(20)) * 1_000_000_000, PaymentDenom: "ujkl", Referral: ref})
+			after := fmt.Sprintf("step %d h=%d BuyStorage by acc%d referral=%q -> code %d", s, c.Height, i, ref, r.Code)
+			rc.Logf("%s %.80q", after, r.Log)
+			rc.Count("storage_purchases", 1)
+			if r.OK() {
+				rc.Count("storage_purchases_ok", 1)
+			}
 			if !check(after) {
 				return
 			}
